@@ -35,7 +35,7 @@ def job(prop, topo, cfg, budget_s=120, split_depth=None):
     cfg = dict(cfg)
     jid = (f"{topo['name']}|cache={int(cfg['cache'])}|lazy={int(cfg['lazy'])}|sync={''.join(cfg['sync']) or '-'}"
            f"|until={cfg['until']}|K={cfg['K']}|D={cfg['D']}|salt={cfg['salt']}"
-           + (f"|fut" if cfg.get('future_outputs') else ''))
+           + (f"|fut" if cfg.get('future_outputs') else '') + (f"|remote={''.join(cfg['remote'])}" if cfg.get('remote') else ''))
     j = {'id': jid, 'harness': 'vk.sysrun:system', 'params': {'topo': topo, 'cfg': cfg}, 'budget_s': budget_s}
     if split_depth:
         j['split_depth'] = split_depth
@@ -45,9 +45,12 @@ def job(prop, topo, cfg, budget_s=120, split_depth=None):
 def fill_report(rep, prop, tier, bounds_extra=None):
     rep.rule = SYS_RULE
     rep.assumptions = list(sysrun.STUBS)
+    if prop == 'C05':
+        from vk import remote
+        rep.assumptions += list(remote.STUBS)
     rep.bounds = {'simulators': '<= 3', 'steps_per_simulator': 'K as given per job (paths needing more are cut and counted)',
                   'early_deliveries_D': 'as given per job', 'values': 'step offsets, output times, until (cache off), shifts: unbounded symbolic ints',
-                  'outside': 'remote byte transport (sockets, JSON), more simulators / steps than stated, real-time mode'}
+                  'outside': 'sockets, subprocesses, JSON text (C05 runs a family behind the in-memory remote transport of vk.remote), more simulators / steps than stated, real-time mode'}
     if bounds_extra:
         rep.bounds.update(bounds_extra)
 
@@ -64,13 +67,19 @@ def plan(prop, tier, seed):
     def add(names, **kw):
         budget = kw.pop('budget_s', 150 if tier == 'quick' else 900)
         split = kw.pop('split', None)
+        remote = kw.pop('remote', None)      # 'all': every simulator behind the in-memory remote transport (vk.remote); 'first': the first one
         for n in names:
             t = cur[n]
             masks = kw.get('masks') or ('all' if len(t['types']) <= 2 else 'extremes')
             kk = dict(kw)
-            kk['masks'] = masks
+            kk['masks'] = masks if not remote else 'extremes'
             for c in cfgs(t, tier, **kk):
                 c['rules'] = rules
+                if remote:
+                    sims = sorted(t['types'])
+                    c['remote'] = sims if remote == 'all' else sims[:1]
+                    if remote == 'all' and not c['sync']:
+                        continue     # the transport mode of a remote simulator is the message order; one mask is enough
                 big = len(t['types']) >= 3 and not c['sync']
                 jobs.append(job(prop, t, c, budget_s=budget, split_depth=(split or 22) if big else None))
 
@@ -124,7 +133,11 @@ def plan(prop, tier, seed):
         add(['tworoutes', 'tworoutes_flat'], K=2, until=2, caches=(True,), masks='extremes', extra={'no_self': ['A', 'B', 'C', 'D']})
         add(['weak4'], K=2, until=2, caches=(True,), lazies=(True, False), masks='extremes', extra={'no_self': ['P', 'Q', 'R', 'D']})
         add(['sibloop', 'loopfeed'], K=2, until=2, caches=(True,), masks='extremes', extra={'no_self': ['A', 'B']})
+        # remote transport in memory: real RemoteProxy / Channel / simulator-side loop, all message orders, shutdown with the stop timeout racing
+        add(['tb2', 'hyb2', 'tb_ev'] if q else ['tb2', 'hyb2', 'tb_ev', 'ev2', 'evloop', 'weak2', 'grp_out', 'multi_shift'], K=2, caches=(True,), remote='all')
+        add(['hyb2'] if q else ['tb2', 'hyb2', 'tb_ev', 'evloop'], K=2, caches=(False,), lazies=(True,) if q else (True, False), remote='first')
         if not q:
+            add(['chain3ev', 'fanin'], K=2, caches=(True,), remote='all', split=18)
             add(['hyb2', 'weak2', 'chain3ev'], K=2, D=1)
             add(two, K=2, salts=(1, 2))
     elif prop == 'C07':
